@@ -474,10 +474,18 @@ macro_rules! impl_bytes_mut_utils {
     ///   2. Pointers are not recoverable, like `*const T`, `*mut T`, `NonNull` and any structs contains pointers,
     ///      although those types are on stack, but they cannot be recovered, when reopens the file.
     pub unsafe fn put_aligned<T>(&mut self, val: T) -> Result<&mut T, InsufficientBuffer> { unsafe {
+      let olen = self.len;
       let mut ptr = self.align_to::<T>()?;
+      let size = ::core::mem::size_of::<T>();
+
+      if self.len + size > self.capacity() {
+        let remaining = self.capacity() - self.len;
+        self.len = olen;
+        return Err(InsufficientBuffer::with_information(size as u64, remaining as u64));
+      }
 
       ptr.as_ptr().write(val);
-      self.len += ::core::mem::size_of::<T>();
+      self.len += size;
       Ok(ptr.as_mut())
     }}
   };
